@@ -20,7 +20,7 @@ func init() {
 		Rules: map[string]string{
 			"R1": "origins(payload.Token) of every Create / takeover Update value == {fresh:<one uuid.New* call site>}; that call is in the function issuing the write or in its caller chain (same activation), not a field load",
 			"R2": "origins of every value stored to the token field outside the constructor are fresh:* only and equal the origins of the written payload token (C02-R1 checks equality per call site)",
-			"R3": "see C01-R3",
+			"R3": "origins(payload.Token) of every refresh Update == {field:token}; origins(payload.ID) == {cfg:InstanceID}",
 			"R4": "OnPromote's token argument is the value stored to the token field (C08-R1); the Token field of the Status() result and Token() load the token field",
 		},
 	})
@@ -91,6 +91,54 @@ func checkC05(c *Ctx) {
 		c.undecided("R2", "instance-floor", nil, "no store to the token field outside the constructor found")
 	}
 
+	// R3 (same rule instance as C01-R3): every refresh republishes the token field
+	nRef := 0
+	for _, op := range m.StoreOps() {
+		if m.classifyOp(op) != "refresh" {
+			continue
+		}
+		nRef++
+		to := m.FieldOrigins(op.Call.Call.Args[1], "Token")
+		c.check(to["field:"+m.Token] && to.all(func(k string) bool { return k == "field:"+m.Token || k == `const:""` }), "R3", "refresh republishes the term token in "+shortFn(op.Fn), op.Call, "origins of payload.Token: %s", to)
+		ido := m.FieldOrigins(op.Call.Call.Args[1], "ID")
+		c.check(ido.all(func(k string) bool { return k == "cfg:InstanceID" }), "R3", "refresh republishes the identity in "+shortFn(op.Fn), op.Call, "origins of payload.ID: %s", ido)
+		// the token is read per refresh, in the critical section that reads claim and revision:
+		// a token read once outside it survives into a later term of the same loop
+		la := m.Locks()
+		okTok := false
+		if rf := m.refreshLoopFn(); rf != nil {
+			eachInstr(rf, func(in ssa.Instruction) {
+				call, ok := in.(*ssa.Call)
+				if !ok {
+					return
+				}
+				h := la.MustBefore(call)
+				if (h[m.implMuR()] || h[m.implMuW()]) && inLoop(call.Block()) && m.Origins(call)["field:"+m.Token] {
+					okTok = true
+				}
+			})
+			eachInstr(rf, func(in ssa.Instruction) {
+				call, ok := in.(*ssa.Call)
+				if !ok {
+					return
+				}
+				h := la.MustBefore(call)
+				if m.Origins(call)["field:"+m.Token] && !(h[m.implMuR()] || h[m.implMuW()]) && !m.isAtomicLoadOf(call, m.Revision) {
+					// an unlocked token read feeding the payload
+					for _, ld := range m.OriginLoadsField(op.Call.Call.Args[1], "Token") {
+						if hh := la.MustBefore(ld); !(hh[m.implMuR()] || hh[m.implMuW()]) {
+							okTok = false
+						}
+					}
+				}
+			})
+		}
+		c.check(okTok, "R3", "refresh reads the token in the per-tick critical section in "+shortFn(op.Fn), op.Call, "token field read under the election mutex inside the loop: %v", okTok)
+	}
+	if nRef == 0 {
+		c.undecided("R3", "instance-floor", nil, "no refresh Update found")
+	}
+
 	// R4: Status().Token and Token() read the token field
 	for _, name := range []string{"Token", "Status"} {
 		f := m.method(name)
@@ -108,7 +156,7 @@ func checkC05(c *Ctx) {
 	}
 	if st := m.method("Status"); st != nil {
 		// the Token field of the returned struct derives from the token field
-		for _, b := range st.Blocks {
+		for _, b := range liveBlocks(st) {
 			if ret, ok := b.Instrs[len(b.Instrs)-1].(*ssa.Return); ok && b != st.Recover {
 				o := m.FieldOrigins(returnValue(ret, 0), "Token")
 				c.check(o["field:"+m.Token] && o.all(func(k string) bool { return k == "field:"+m.Token || strings.HasPrefix(k, "const:") }), "R4", "Status().Token is the token field", ret, "origins %s", o)
